@@ -1056,3 +1056,37 @@ def leaf_names(chk, F):
             chk.decide(bool(loops), "leaf-names", fk, "quoted-string-escaped", "%s:%d" % (fn.file, a["line"]),
                        "quoted strings are written character by character (quote and backslash escaped)",
                        "quoted strings are written verbatim between quotes: a `'` inside the string ends it when the text is read back")
+            # writer/reader table agreement: inside '..' the lexer does not take three characters verbatim - the quote (ends the
+            # string), the newline (an error) and the backslash (starts an escape; the escapes it knows are extracted below).  The
+            # printer has to write the first two as escapes the lexer knows (a backslash cannot be written at all, and no parser
+            # produces one).
+            lex = [f for f in F.by_crate[CORE] if f.path == "<parsing::text_query::TokenIterator<'a> as core::iter::traits::iterator::Iterator>::next"]
+            if len(lex) != 1:
+                raise AnchorLost("text_query lexer not found")
+            known = {}
+            for m2 in hir_walk(F.hir_of(lex[0])["body"]):
+                if m2.get("k") == "Match":
+                    for a2 in m2["arms"]:
+                        pt = a2["pat"]
+                        # Some('<c>') => buf.push('<d>')
+                        if pt.get("pk") == "tuplestruct" and pt["subs"] and pt["subs"][0].get("pk") == "expr" and pt["subs"][0]["e"].get("lit") == "char":
+                            pushes = [c for c in H.method_calls(a2["body"], "push") if c["args"] and c["args"][0].get("k") == "Lit" and c["args"][0]["lit"].get("lit") == "char"]
+                            if len(pushes) == 1 and "buf" in H.expr_str(pushes[0]["recv"]):
+                                known[pt["subs"][0]["e"]["v"]] = pushes[0]["args"][0]["lit"]["v"]
+            if not {"'", "n"} <= set(known):
+                raise AnchorLost("lexer: escapes of the quote branch not found (%s)" % known)
+            handled = set()
+            written = []
+            for n2 in hir_walk(a["body"]):
+                if n2.get("pk") == "expr" and n2["e"].get("lit") == "char":
+                    handled.add(n2["e"]["v"])
+                if n2.get("k") == "Lit" and n2["lit"].get("lit") == "char":
+                    handled.add(n2["lit"]["v"])
+                if n2.get("k") == "Lit" and n2["lit"].get("lit") == "str" and str(n2["lit"]["v"]).startswith("\\") and len(n2["lit"]["v"]) == 2:
+                    written.append(n2["lit"]["v"][1])
+            need = {"'", "\n"}
+            okw = all(w in known for w in written)
+            chk.decide(need <= handled and okw and bool(written), "leaf-names", fk, "quote-escapes-agree-with-the-lexer", "%s:%d" % (fn.file, a["line"]),
+                       "the printer escapes %s with escapes the lexer knows (%s)" % (sorted(repr(c) for c in handled), sorted(known)),
+                       "inside quotes the lexer cannot read a raw quote or a raw newline (its escapes: %s); the printer handles %s and writes the escapes %s: "
+                       "`'a\\nb'` is printed with a line break inside the quotes and does not read back" % (sorted(known), sorted(repr(c) for c in handled), written))
